@@ -187,7 +187,9 @@ func prehashMsiDir(cdf *comdoc.ComDoc, parent *comdoc.DirEnt, d io.Writer) error
 		return err
 	}
 	sortMsiFiles(files)
-	prehashMsiDirent(parent, d)
+	if err := prehashMsiDirent(parent, d); err != nil {
+		return err
+	}
 	for _, item := range files {
 		name := item.Name()
 		if name == msiDigitalSignature || name == msiDigitalSignatureEx {
@@ -195,7 +197,9 @@ func prehashMsiDir(cdf *comdoc.ComDoc, parent *comdoc.DirEnt, d io.Writer) error
 		}
 		switch item.Type {
 		case comdoc.DirStream:
-			prehashMsiDirent(item, d)
+			if err := prehashMsiDirent(item, d); err != nil {
+				return err
+			}
 		case comdoc.DirStorage:
 			if err := prehashMsiDir(cdf, item, d); err != nil {
 				return err
@@ -206,7 +210,10 @@ func prehashMsiDir(cdf *comdoc.ComDoc, parent *comdoc.DirEnt, d io.Writer) error
 }
 
 // Hash a MSI stream's extended metadata
-func prehashMsiDirent(item *comdoc.DirEnt, d io.Writer) {
+func prehashMsiDirent(item *comdoc.DirEnt, d io.Writer) error {
+	if item.Type != comdoc.DirRoot && (item.NameLength < 2 || item.NameLength > 64) {
+		return errors.New("invalid name length in MSI directory entry")
+	}
 	buf := bytes.NewBuffer(make([]byte, 0, 128))
 	_ = binary.Write(buf, binary.LittleEndian, item.RawDirEnt)
 	enc := buf.Bytes()
@@ -228,6 +235,7 @@ func prehashMsiDirent(item *comdoc.DirEnt, d io.Writer) {
 	if item.Type != comdoc.DirRoot {
 		_, _ = d.Write(enc[100:116])
 	}
+	return nil
 }
 
 // Sort a list of MSI streams in the order needed for hashing
@@ -239,7 +247,7 @@ func sortMsiFiles(files []*comdoc.DirEnt) {
 			n = b.NameLength
 		}
 		// do a comparison of the utf16 in its original LE form
-		for k := uint16(0); k < n; k++ {
+		for k := uint16(0); k < n && int(k) < len(a.NameRunes); k++ {
 			x, y := a.NameRunes[k], b.NameRunes[k]
 			x1, y1 := x&0xff, y&0xff
 			if x1 != y1 {
